@@ -80,6 +80,10 @@ impl Src for KaniSrc {
     }
 }
 
+/// Set when an assumption of the running harness failed (also visible after a panic: code past a
+/// failed assumption runs on inputs the harness does not claim anything about).
+pub static ASSUME_FAILED: std::sync::atomic::AtomicBool = std::sync::atomic::AtomicBool::new(false);
+
 /// Native source: bytes from a counterexample (or hand-written input), little-endian.
 pub struct ReplaySrc {
     pub vals: Vec<Vec<u8>>,
@@ -137,6 +141,7 @@ impl Src for ReplaySrc {
     fn assume(&mut self, c: bool) {
         if !c {
             self.assume_failed = true;
+            ASSUME_FAILED.store(true, std::sync::atomic::Ordering::SeqCst);
         }
     }
     fn check(&mut self, c: bool, what: &'static str) {
